@@ -257,6 +257,30 @@ theorem gather_enforce_err {s : Sock} {f : Q α} {k : ErrKind} {σ σ' : St} (h 
   obtain ⟨w', h1, h2⟩ := h w hw
   exact ⟨w', by simp only [Gd.maybeGather]; rw [Q.bind_apply, h1], h2⟩
 
+/-- what `maybe_gather!` (toggle not Skip) makes of the outcome of the gathered computation -/
+def gatherRes {α : Type} (t : Toggle) : Res α → Res (Option α)
+  | .ok a => .ok (some a)
+  | .err k => if t = .try_ then .ok none else .err k
+  | .crash => .crash
+
+theorem gather {s : Sock} {f : Q α} {r : Res α} {σ σ' : St} (h : Steps s f r σ σ') (t : Toggle) (ht : t ≠ .skip) :
+    Steps s (maybeGather t f) (gatherRes t r) σ σ' := by
+  cases r with
+  | ok a => exact gather_ok h t ht
+  | err k =>
+    cases t with
+    | skip => exact absurd rfl ht
+    | try_ => exact gather_try_err h
+    | enforce => exact gather_enforce_err h
+  | crash =>
+    intro w hw
+    obtain ⟨w', h1, h2⟩ := h w hw
+    refine ⟨w', ?_, h2⟩
+    cases t with
+    | skip => exact absurd rfl ht
+    | try_ => simp only [Gd.maybeGather, h1, gatherRes]
+    | enforce => simp only [Gd.maybeGather, gatherRes]; rw [Q.bind_apply, h1]
+
 end Steps
 
 /-! ### the primitives -/
